@@ -192,6 +192,8 @@ type client struct {
 	close        chan struct{}
 	closed       chan struct{}
 	connected    chan struct{}
+	// authContinue is signalled when the broker answered with AUTH (continue authentication)
+	authContinue chan struct{}
 	status       int32
 	// if 1, when client close, the session expiry interval will be ignored and the session will be removed.
 	forceRemoveSession int32
@@ -396,6 +398,8 @@ func (client *client) readLoop() {
 		client.setError(err)
 		close(client.in)
 	}()
+	// packets received while enhanced authentication is in progress
+	var pending []packets.Packet
 	for {
 		var packet packets.Packet
 		if client.IsConnected() {
@@ -421,7 +425,18 @@ func (client *client) readLoop() {
 			}
 		}
 		client.in <- packet
-		<-client.connected
+		select {
+		case <-client.connected:
+		case <-client.authContinue:
+			// Enhanced authentication continues: the client's next AUTH packet has to be read before
+			// the CONNACK can be sent. This packet is accounted for once the client id is known.
+			pending = append(pending, packet)
+			continue
+		}
+		for _, p := range pending {
+			srv.statsManager.packetReceived(p, client.opts.ClientID)
+		}
+		pending = nil
 		srv.statsManager.packetReceived(packet, client.opts.ClientID)
 		if client.server.config.Log.DumpPacket {
 			if ce := zaplog.Check(zapcore.DebugLevel, "received packet"); ce != nil {
@@ -603,6 +618,11 @@ func (client *client) connectWithTimeOut() (ok bool) {
 			}
 			// continue authentication (ContinueAuthentication is introduced in V5)
 			if code == codes.ContinueAuthentication {
+				// let the read loop fetch the client's answer
+				select {
+				case client.authContinue <- struct{}{}:
+				default:
+				}
 				client.out <- &packets.Auth{
 					Code: code,
 					Properties: &packets.Properties{
